@@ -14,7 +14,7 @@ dominate it) must each be of an allowed form, and the required forms must be pre
 """
 from .base import Result, RuleError
 from .facts import callee
-from .flow import ExprBuilder, defs_of, canon, walk, fmt_expr, relations_at
+from .flow import ExprBuilder, defs_of, canon, walk, fmt_expr, relations_at, expand_combinators
 from .logic import Ctx, uncast, is_call, const_of
 
 P1 = ("param", 1)
@@ -51,14 +51,41 @@ def arg(e, i):
 
 
 def ret_alts(b, facts):
-    """[(bb, expr, relations)] for every assignment to the return place outside cleanup blocks"""
+    """[(bb, expr, relations)] for every value that can be returned, taken at the assignment that produces it (a plain
+    copy of a local that itself has several definitions - `match .. { a => x, b => y }` binding a result first - is
+    followed to those definitions), with the relations that dominate that assignment; Option/Result combinators are
+    expanded into their cases"""
+    from .flow import reaching_defs
     eb = ExprBuilder(b, facts, inline=True)
     out = []
+
+    def add(bi, e):
+        rels = list(Ctx(b, bi, facts).rels)
+        exp = expand_combinators(e, facts)
+        if exp is None:
+            out.append((bi, canon(e), rels))
+        else:
+            for val, extra in exp:
+                out.append((bi, canon(val), rels + [(x[0], canon(x[1]), x[2]) for x in extra]))
+
+    def follow(bi, si, k, pay, depth):
+        src = None
+        if k == "assign" and pay["k"] == "use" and pay["op"]["k"] in ("copy", "move") and not pay["op"]["pl"]["p"]:
+            src = pay["op"]["pl"]["l"]
+        elif k == "assign" and pay["k"] in ("ref", "rawptr") and pay["pl"]["p"] == ["*"]:
+            src = pay["pl"]["l"]            # reborrow `&*x`
+        if src is not None and depth < 4:
+            ds = [d for d in reaching_defs(b, src, (bi, si)) if d[0] != "entry"]
+            if len(ds) > 1 and len(ds) == len(reaching_defs(b, src, (bi, si))):
+                for d in ds:
+                    follow(d[0], d[1], d[2], d[3], depth + 1)
+                return
+        e = eb.rvalue(pay, (bi, si), 0) if k == "assign" else eb.call_expr(pay, (bi, si), 0)
+        add(bi, e)
     for (bi, si, k, pay) in defs_of(b).get(0, []):
         if b.blocks[bi]["cleanup"]:
             continue
-        e = eb.rvalue(pay, (bi, si), 0) if k == "assign" else eb.call_expr(pay, (bi, si), 0)
-        out.append((bi, canon(e), [tuple(canon(x) if isinstance(x, tuple) else x for x in r) for r in relations_at(b, bi, facts)]))
+        follow(bi, si, k, pay, 0)
     return out
 
 
